@@ -233,6 +233,9 @@ class CodeBuilder:
 
         if is_local_type_name(field_type):
             field_type = clean_id(field_type)
+            if resolved_type_params and is_hashable(typ):
+                # the name is that of the class a type variable stands for
+                typ = resolved_type_params.get(typ, typ)
             self.ensure_object_imported(typ, field_type)
 
         return field_type
